@@ -54,7 +54,7 @@ ASSUMPTIONS = [
 RULE = {'C06': 'seeded traffic-level histories (steady phases of k outstanding requests with churn for >= 12 EMA windows, '
                'level changes, member failures, joins/leaves, jitter rounds, delayed/failed opens, fine-grained steps; every 6th script a rolling restart: leaves of the '
                'active member and of its still-connecting replacement with opens held pending, then demand; every 6th a jitter '
-               'round overlapping membership changes; after every 10th script one at fine time granularity: phases of '
+               'round overlapping membership changes; after every 12th script one at fine time granularity: phases of '
                '1500-3000 balancer events spaced 50/200/400/900 us, exactly 1 ms, mixed fine/coarse or random patterns, '
                'completion+dispatch pairs or single events, levels 0..30, busy from the first request / opened by slower '
                'traffic then short calls back to back / light turning heavy, the published load steered next to a band edge '
@@ -297,7 +297,7 @@ def _gen_dense(rng, idx):
           'jitter': 0, 'rseed': rng.randint(0, 1 << 30), 'ops': ops}
 
 
-DENSE_EVERY = 10
+DENSE_EVERY = 12
 
 
 def cases(prop, tier, seed):
